@@ -11,7 +11,7 @@ import networkx as nx
 
 from ..common import Result, sut, digest, BudgetStop, tight_stack_call
 from ..taps import RandomTap, installed, InjectedFault
-from ..graphs import MonitoredGraph, build_clean_network, check_clean
+from ..graphs import MonitoredGraph, CanonicalEdgesMonitoredGraph, build_clean_network, check_clean
 from ..mcmc import SwapMonitor, installed_monitor, K1
 from . import c20
 
@@ -26,7 +26,7 @@ ASSUMPTIONS = ["inputs are clean by construction and re-checked before use (harn
                "rewire() is unwound by logical budgets (thorough: proposals <= 3000*limit + 200000 and a stall window of 100000 proposals without an accepted swap; quick: 60000 proposals, stall window 15000; draws <= 50x the proposal budget); everything observed up to a stop is checked, the run is recorded as stopped",
                "a shape failure is attributed to the known finding K1 only if every shape-breaking swap carries the K1 signature"]
 HEADLINE = ["runs", "accepted_swaps", "proposals", "sig_K1", "sig_ideal", "sig_other", "shape_fail_K1", "shape_ok_swaps", "self_loop_corner_proposals",
-            "default_limit_runs", "reused_object_runs", "list_annotation_runs", "rewire_again_after_in_place_edit_of_the_network", "rewire_calls_aborted_by_injected_fault", "runs_with_isolated_vertices", "adopted_working_graphs", "stopped_runs", "drawset_invariant_evals", "input_events", "created_edges"]
+            "default_limit_runs", "reused_object_runs", "list_annotation_runs", "rewire_again_after_in_place_edit_of_the_network", "rewire_calls_aborted_by_injected_fault", "runs_on_vertex_objects", "runs_on_a_frozen_input_graph", "runs_with_isolated_vertices", "adopted_working_graphs", "stopped_runs", "drawset_invariant_evals", "input_events", "created_edges"]
 REQUIRED = {"quick": {"accepted_swaps": 2000, "self_loop_corner_proposals": 20, "default_limit_runs": 5, "hooks_installed": 100, "two_name_runs": 3, "runs_with_isolated_vertices": 10},
             "thorough": {"accepted_swaps": 100000, "self_loop_corner_proposals": 500, "default_limit_runs": 100, "hooks_installed": 1000, "two_name_runs": 50, "runs_with_isolated_vertices": 100}}
 SHARD_TIMEOUT = {"quick": 900, "thorough": 14400}
@@ -108,6 +108,20 @@ def make_target(rng, G, names, kind, lam=0.8):
     return T
 
 
+class Site:
+    """a caller's vertex object: hashed and compared by identity, orderable (the library sorts the end points of an edge)"""
+    __slots__ = ("i",)
+
+    def __init__(self, i):
+        self.i = i
+
+    def __lt__(self, other):
+        return self.i < other.i
+
+    def __repr__(self):
+        return "Site(%r)" % (self.i,)
+
+
 def make_network(rng, fam, N, ids="shuffled", assort=0.0, graph_cls=MonitoredGraph):
     families = FAMILIES[fam]
     T = len(families)
@@ -123,8 +137,36 @@ def make_network(rng, fam, N, ids="shuffled", assort=0.0, graph_cls=MonitoredGra
         ncol = len(classes[0])
         classes = classes + [(0,) * ncol]
         weights = [1.0] * (len(classes) - 1) + [0.25]
+    canonical = graph_cls is MonitoredGraph and rng.random() < 0.12
+    if canonical:
+        graph_cls = CanonicalEdgesMonitoredGraph
     G, info = build_clean_network(rng, N, families, classes, class_weights=weights, assort=assort, ids=ids, graph_cls=graph_cls, scramble=rng.random() < 0.5)
+    if canonical:
+        info["canonical_edge_orientation"] = True
     info["isolated_vertices"] = sum(1 for v in G.nodes() if G.degree(v) == 0)
+    r = rng.random()
+    if r < 0.1:
+        # vertices that are the caller's own objects (hashable by identity, orderable): the returned graph must be on THESE objects
+        sites = {v: Site(v) for v in G.nodes()}
+        G2 = graph_cls()
+        q = getattr(G2, "_quiet", None)
+        if q is not None:
+            G2._quiet = True
+        for v, d in G.nodes(data=True):
+            G2.add_node(sites[v], **{})
+            G2.nodes[sites[v]].update(d)
+        for a, b, d in G.edges(data=True):
+            G2.add_edge(sites[a], sites[b])
+            G2.edges[sites[a], sites[b]].update(d)
+        if q is not None:
+            G2._quiet = False
+            G2.events = []
+        G = G2
+        info["vertex_objects"] = True
+    elif r < 0.22:
+        # a frozen graph (nx.freeze): the caller's way of saying "do not touch"; rewiring works on its own copy anyway
+        nx.freeze(G)
+        info["frozen"] = True
     if rng.random() < 0.3:
         # annotations as lists (hand-written / JSON-loaded joint degree sequences): mutable objects shared by a shallow graph copy
         from gcmpy import NetworkNames as NN
@@ -262,12 +304,18 @@ def run_case(case):
         res.count("list_annotation_runs")
     if info.get("isolated_vertices"):
         res.count("runs_with_isolated_vertices")
+    if info.get("vertex_objects"):
+        res.count("runs_on_vertex_objects")
+    if info.get("canonical_edge_orientation"):
+        res.count("runs_on_a_graph_subclass_with_canonical_edge_orientation")
+    if info.get("frozen"):
+        res.count("runs_on_a_frozen_input_graph")
     base = {"family": fam, "N": N, "classes": classes, "target": kind, "motifs": info["motifs"], "edges": G.number_of_edges(),
             "params": {str(k.value): v for k, v in extra.items()}, "seed": case["seed"]}
     quick = not case.get("thorough")
     mon = run_rewire(res, G, names, T, extra, seed=case["seed"], ctx=base, cap=60000 if quick else None, stall=15000 if quick else 100000)
     fold_monitor(res, mon, base)
-    if res.verdict == "held" and mon.returned and rng.random() < 0.3:
+    if res.verdict == "held" and mon.returned and not nx.is_frozen(G) and rng.random() < 0.3:
         # history: the owner edits the network's graph IN PLACE (degree-preserving swaps between two 2-clique motifs: same graph
         # object, same number of edges, still a clean motif network) and calls rewire() again on the same rewiring object
         from gcmpy import NetworkNames as NN
